@@ -6,9 +6,10 @@
    What is exact and what is a bound:
    - names: [name_wire_len n] is the size of the name written literally; the encoder may emit fewer
      octets (a pointer replaces a suffix), never more;
-   - the address of an EDNS client-subnet option and of an APL item is cut after the octet that holds
-     bit number `prefix` (RFC 7871 section 6, RFC 3123 section 4): [usize_addr_cut] is the exact
-     number of address octets of that format, NOT the full 4/16 octets;
+   - the address of an EDNS client-subnet option and of an APL item is written up to its last non-zero
+     octet, but with at least ceil(source / 8) octets for ECS and at least none for APL (RFC 7871
+     section 6, RFC 3123 section 4): [usize_addr_cut] is the exact number of address octets of that
+     format, NOT the full 4/16 octets;
    - everything else is the exact number of octets of the format.
    Hence for a well-formed value [usize_*] is exactly the size of the encoding without compression and
    an upper bound of the size of the encoder's output (Proofs/EncSize.v, Proofs/EncSucceeds.v). *)
@@ -53,18 +54,26 @@ Fixpoint usize_fields (f : list (string * fk)) (vals : list fv) : N :=
   end.
 
 (* address octets of an address-prefix item *)
-Definition usize_addr_cut (prefix : N) (a : addr) : N := N.min (prefix / 8 + 1) (lenN (a_oct a)).
+(* the octets up to the last non-zero one, but at least `least` (never more than the family size for
+   least <= size) *)
+Fixpoint usize_addr_significant (oct : bytes) : N :=
+  match oct with
+  | [] => 0
+  | b :: r => let s := usize_addr_significant r in if (s =? 0) && (b =? 0) then 0 else s + 1
+  end.
+Definition usize_addr_cut (least : N) (a : addr) : N :=
+  N.min (N.max (usize_addr_significant (a_oct a)) least) (lenN (a_oct a)).
 
 (* EDNS options: code, length, then family + source + scope + cut address / cookies / padding *)
 Definition usize_option (o : ednsopt) : N :=
   match o with
-  | OEcs e => 4 + (4 + usize_addr_cut (ecs_prefix e) (e_addr e))
+  | OEcs e => 4 + (4 + usize_addr_cut ((e_src e + 7) / 8) (e_addr e))
   | OCookie c => 4 + (lenN (c_client c) + match c_server c with Some s => lenN s | None => 0 end)
   | OPadding n => 4 + n
   end.
 
-(* APL items: family, prefix, length octet, cut address *)
-Definition usize_apitem (i : apitem) : N := 4 + usize_addr_cut (i_prefix i) (i_addr i).
+(* APL items: family, prefix, length octet, address without trailing zero octets *)
+Definition usize_apitem (i : apitem) : N := 4 + usize_addr_cut 0 (i_addr i).
 
 (* SvcParams: key, length, value *)
 Definition usize_param_value (p : svcparam) : N :=
